@@ -188,7 +188,9 @@ GhostStatuses(g, evs, S) ==
                      IF i \notin KnownAt(g, a) THEN g.att[i]
                      ELSE IF Cardinality(g.want[i]) # 1 THEN "free"
                      ELSE IF st = "DOWN" THEN "mustnot"
-                     ELSE IF TheOne(g.want[i]).addr \in g.reach THEN "must" ELSE "free"]]
+                     ELSE IF TheOne(g.want[i]).addr \in g.reach THEN "must"
+                     \* reported up but not answering: "not offered until it is connected again" goes on
+                     ELSE IF g.att[i] = "mustnot" THEN "mustnot" ELSE "free"]]
        IN GhostStatuses(g1, evs, S \ {a})
 
 \* A batch that holds status events and causes a refresh: the property does not say which is
@@ -269,6 +271,8 @@ Viol(o, g) ==
      \* a refresh was asked for and can never return: the goroutine that performs the refreshes is
      \* itself waiting for a refresh (reported by the harness from the goroutines' stacks)
      ELSE IF o.stuck # "" THEN {"refresh-never-returns"}
+     \* the policy was told "host up" (offer it) for a host whose node did not answer during the whole step
+     ELSE IF \E i \in o.upcalls \cap H : o.hosts[i].addr \notin g.reach THEN {"unreachable-host-announced-up"}
      ELSE IF ringV # {} THEN ringV ELSE restV
 
 \* the observation a model state corresponds to
@@ -277,7 +281,7 @@ ObsOf(dd, nref) ==
    poolA |-> [i \in dd.pool \cap DOMAIN dd.hosts |-> dd.hosts[i].addr],
    polE |-> {[id |-> i, addr |-> dd.hosts[i].addr] : i \in dd.pol \cap DOMAIN dd.hosts},
    down |-> dd.down, served |-> {dd.hosts[i].addr : i \in (dd.pool \cap dd.pol) \ dd.down},
-   refreshes |-> nref, panic |-> "", stuck |-> ""]
+   refreshes |-> nref, panic |-> "", stuck |-> "", upcalls |-> {}]
 
 (***************************************************************************)
 (* The state machine                                                       *)
